@@ -4,7 +4,7 @@ USES = ["shared"]
 
 
 def contracts():
-    c05 = core.select(C05.contracts(), ("ErrorHandler._handle_if", "ErrorCommsManager.do_i_fail", "CsvPath.collect_error[own_list]"))
+    c05 = core.select(C05.error_contracts(), ("ErrorHandler._handle_if", "ErrorCommsManager.do_i_fail", "CsvPath.collect_error[own_list]"))
     cr = core.select(core.contracts(), ("Matcher.matches", "CsvPath._consider_line"))
     ct = core.select(control.contracts(), ("Fail._decide_match", "FailAll._decide_match", "Failed._decide_match", "Stopper._stop_me", "Stop._decide_match"))
     return c05 + cr + ct + managers.contracts()
